@@ -1,4 +1,93 @@
 import Blue.Proofs.Setsum
 import Blue.Proofs.SetsumDigest
-/-! Property C14: the theorems the check builds and audits (spike inventory; the build phase
-    completes the list from DESIGN Appendix C.0). -/
+import Blue.Proofs.ConstsTie
+/-! # Property C14 — setsum is an order-independent, invertible, composable multiset checksum
+
+Property theorems only (helper lemmas live in `Blue/Proofs/Setsum*.lean`).  The model
+(`Blue/Model/Setsum.lean`) keeps the `u32`/`u64` conversions of `setsum/src/lib.rs` and the
+arithmetic underflow of `invert_state` as an explicit `none`.  The SHA3-256 hash is a parameter:
+an item enters as the eight little-endian 32-bit words of its hash (`Words`).
+
+Every `Setsum` value the API can produce is `Canonical` (each column below its prime):
+`zero`, `insert`, `remove`, `add`, `sub` preserve it and the repaired `from_digest` establishes it
+for *every* 32-byte input — so the laws below hold for all values, including those that come
+from digests with columns in `p … 2^32-1`. -/
+namespace Blue.Props.C14
+open Blue.Setsum
+
+/-- the primes the theorems are about are the ones in the Rust source (regenerated every run) -/
+theorem primes_from_source : primes.toList = Blue.Generated.setsumPrimes := Blue.ConstsTie.setsum_primes
+
+/-- every value is canonical: closure of the API -/
+theorem api_closed :
+    Canonical zero
+    ∧ (∀ a b, Canonical a → Canonical b → Canonical (add a b))
+    ∧ (∀ a b, Canonical a → Canonical b → ∃ c, sub a b = some c ∧ Canonical c)
+    ∧ (∀ s w, Canonical s → Words w → Canonical (insert s w))
+    ∧ (∀ d s, Bytes d → fromDigest d = some s → Canonical s) :=
+  ⟨canonical_zero, fun _ _ ha hb => canonical_add ha hb, fun _ _ ha hb => sub_canonical ha hb,
+   fun _ _ hs hw => canonical_insert hs hw, fun _ _ hb h => fromDigest_canonical hb h⟩
+
+/-- insertion order does not matter -/
+theorem order_independent {xs ys : List (Vector Nat 8)} (p : xs.Perm ys) (hw : ∀ w ∈ xs, Words w) :
+    ofItems xs = ofItems ys := Blue.Setsum.order_independent p hw
+
+/-- the setsum of a union is the sum of the setsums -/
+theorem union_is_sum {xs ys : List (Vector Nat 8)} (hx : ∀ w ∈ xs, Words w) (hy : ∀ w ∈ ys, Words w) :
+    ofItems (xs ++ ys) = add (ofItems xs) (ofItems ys) := Blue.Setsum.union_is_sum hx hy
+
+/-- removing an item undoes inserting it (and never underflows) -/
+theorem remove_undoes_insert {s : State} {w : Vector Nat 8} (hs : Canonical s) (hw : Words w) :
+    remove (insert s w) w = some s := remove_insert hs hw
+
+/-- subtraction undoes addition (and never underflows) -/
+theorem sub_undoes_add {a b : State} (ha : Canonical a) (hb : Canonical b) : sub (add a b) b = some a :=
+  add_sub_cancel ha hb
+
+theorem group_laws {a b c : State} (ha : Canonical a) (hb : Canonical b) (hc : Canonical c) :
+    add a b = add b a ∧ add (add a b) c = add a (add b c) ∧ add a zero = a ∧ sub a a = some zero :=
+  ⟨add_comm a b, add_assoc ha hb hc, add_zero ha, sub_self ha⟩
+
+/-- the laws for *every* pair of 32-byte digests fed to `from_digest`, whatever their columns -/
+theorem laws_for_all_digests {d e : List Nat} {a b : State} (hd : Bytes d) (he : Bytes e)
+    (h1 : fromDigest d = some a) (h2 : fromDigest e = some b) :
+    sub (add a b) b = some a ∧ add a b = add b a :=
+  ⟨add_sub_cancel (fromDigest_canonical hd h1) (fromDigest_canonical he h2), add_comm a b⟩
+
+/-- digests and hex digests round-trip -/
+theorem digest_roundtrip {s : State} (hs : Canonical s) :
+    fromDigest (digest s) = some s ∧ fromHexdigest (hexdigest s) = some s :=
+  ⟨fromDigest_digest hs, fromHexdigest_hexdigest hs⟩
+
+/-- the published definition: column `i` is the sum of the items' `i`-th hash words modulo the
+    `i`-th prime -/
+theorem matches_definition (items : List (Vector Nat 8)) (hw : ∀ w ∈ items, Words w) (i : Nat) (h : i < 8) :
+    (ofItems items)[i] = (items.map (fun w => w[i])).sum % primes[i] :=
+  Blue.Setsum.matches_definition items hw i h
+
+/-- the defect D-14 as a theorem about `from_digest` *as it was*: a digest the library never
+    produced makes subtraction underflow (panic / wrong residue).  Kept so that the known input
+    stays a theorem after the repair. -/
+theorem from_digest_unrepaired_underflows :
+    (fromDigestOld (List.replicate 32 255)).bind (fun b => sub zero b) = none := fromDigestOld_underflow
+
+/-! non-vacuity: concrete non-trivial states meet the hypotheses -/
+example : Words #v[4294967295, 1, 2, 3, 4, 5, 6, 7] := by
+  intro i h; have : i = 0 ∨ i = 1 ∨ i = 2 ∨ i = 3 ∨ i = 4 ∨ i = 5 ∨ i = 6 ∨ i = 7 := by omega
+  rcases this with rfl | rfl | rfl | rfl | rfl | rfl | rfl | rfl <;> simp [U32]
+example : ∃ s, fromDigest (List.replicate 32 255) = some s ∧ Canonical s :=
+  ⟨_, rfl, fromDigest_canonical (d := List.replicate 32 255) (by unfold Bytes; decide) rfl⟩
+
+end Blue.Props.C14
+
+#print axioms Blue.Props.C14.primes_from_source
+#print axioms Blue.Props.C14.api_closed
+#print axioms Blue.Props.C14.order_independent
+#print axioms Blue.Props.C14.union_is_sum
+#print axioms Blue.Props.C14.remove_undoes_insert
+#print axioms Blue.Props.C14.sub_undoes_add
+#print axioms Blue.Props.C14.group_laws
+#print axioms Blue.Props.C14.laws_for_all_digests
+#print axioms Blue.Props.C14.digest_roundtrip
+#print axioms Blue.Props.C14.matches_definition
+#print axioms Blue.Props.C14.from_digest_unrepaired_underflows
